@@ -683,12 +683,20 @@ pub fn run(ctx: &Ctx) -> (Vec<Case>, String, bool, BTreeMap<String, String>) {
         let mut rng = ctx.case_rng("c11h", i);
         one_case(id, &mut rng, true, Mech::of(i))
     }));
+    // device-configuration accesses of every type (sizes 0..128) at every offset around the end of the
+    // device-config window, for every capability length: only the window may be touched (C13's stream)
+    let mut b = crate::c13_config::bounds_cases_for(ctx, "C11", false);
+    for c in b.iter_mut() {
+        c.id = format!("C11-via-{}", c.id);
+        c.tag("device-config-bounds");
+    }
+    all.extend(b);
     let rule = "streams: structured = mostly valid configuration spaces (all four VirtIO capability types usually present, duplicates, short/long cap_len, foreign capability ids \
 and cfg types, any list order, non-overlapping placement; 32/64-bit/below-1MiB/I-O/unimplemented BARs with sizes up to 2^63 and boundary/random addresses; capability (bar, offset, length) \
 boundary-biased against the named BAR: inside, ending exactly at the end, just beyond, near-u32-overflow pairs, too short, odd offsets, random; reserved bar indices; even/odd/zero multipliers); \
 hostile = additionally overlapping/late placements, cyclic lists, bad next pointers, capabilities bit clear, reserved memory type, fewer capabilities. \
 Access path rotates over {ConfigurationAccess reference function, real MmioCam CAM, ECAM}. After a successful new: 6-25 random Transport operations against a scripted device then drop. \
-non-trivial = PciTransport::new succeeded (windows mapped, operations and drop traced)"
+non-trivial = PciTransport::new succeeded (windows mapped, operations and drop traced). Plus the PCI half of C13's bounds stream: every access type x every offset around the end of the device-config window x every capability length."
         .to_string();
     (all, rule, false, BTreeMap::new())
 }
